@@ -517,6 +517,7 @@ func runC10Restore(c c10RestoreCase) Verdict {
 	}
 	var mu sync.Mutex
 	var invoked []string
+	var lateReads [][2]string
 	gate := make(chan struct{})
 	defer func() {
 		select {
@@ -546,8 +547,16 @@ func runC10Restore(c c10RestoreCase) Verdict {
 	default:
 		dr.AddCommand("k", func(args []*variable.Value) <-chan error {
 			note(*args[0].String, int(*args[1].Number))
+			seen := fmt.Sprintf("k(%q,%d)", *args[0].String, int(*args[1].Number))
 			ch := make(chan error, 1)
-			go func() { <-gate; ch <- nil }()
+			go func() {
+				<-gate
+				// the handler's goroutine reads its arguments again when it finishes: they are still the ones it was started with
+				mu.Lock()
+				lateReads = append(lateReads, [2]string{seen, fmt.Sprintf("k(%q,%d)", *args[0].String, int(*args[1].Number))})
+				mu.Unlock()
+				ch <- nil
+			}()
 			return ch
 		})
 	}
@@ -652,6 +661,24 @@ func runC10Restore(c c10RestoreCase) Verdict {
 			break
 		}
 		time.Sleep(time.Millisecond)
+	}
+	if c.Shape == "raw" {
+		// both goroutines have finished by now (the gate is open): what they read at the end is what they were started with
+		deadline := time.Now().Add(5 * time.Second)
+		for {
+			mu.Lock()
+			reads := append([][2]string{}, lateReads...)
+			mu.Unlock()
+			for _, r := range reads {
+				if r[0] != r[1] {
+					return failf("an invocation started with the arguments %s reads %s from the same slice when it finishes (an abandoned invocation sees the arguments of a later command)", r[0], r[1])
+				}
+			}
+			if len(reads) >= 2 || time.Now().After(deadline) {
+				break
+			}
+			time.Sleep(time.Millisecond)
+		}
 	}
 	return Verdict{NonTrivial: true, Classes: []string{"shape=" + c.Shape}}
 }
